@@ -106,6 +106,8 @@ async fn subscriber(world: Arc<Mutex<World>>, spec: Arc<SubSpec>, st: Arc<Mutex<
         if let Some(ev) = ev {
             match ev {
                 SubscriptionEvent::Record { cursor, record, .. } => {
+                    // lock order everywhere: world, then subscription state
+                    let w = world.lock().unwrap();
                     let mut s = st.lock().unwrap();
                     s.count += 1;
                     s.last_delivery = Some(Instant::now());
@@ -120,7 +122,6 @@ async fn subscriber(world: Arc<Mutex<World>>, spec: Arc<SubSpec>, st: Arc<Mutex<
                     if outstanding > spec.window {
                         v("C09:window-exceeded", format!("cursor {cursor} delivered while the last acknowledged cursor is {:?}: {outstanding} outstanding, window {}", s.last_ack, spec.window));
                     }
-                    let w = world.lock().unwrap();
                     let id = record.event_id.as_u128();
                     match w.model.partition_events(record.partition_id).iter().find(|e| e.event_id == id) {
                         None => v("C09:unknown-event-delivered", format!("event {} (partition {} seq {}) is not a written event", record.event_id, record.partition_id, record.partition_sequence)),
@@ -149,9 +150,9 @@ async fn subscriber(world: Arc<Mutex<World>>, spec: Arc<SubSpec>, st: Arc<Mutex<
                             }
                         }
                     }
-                    drop(w);
                     for x in newv { if s.violations.len() < 6 { s.violations.push(x); } }
                     drop(s);
+                    drop(w);
                     unacked.push(cursor);
                 }
                 SubscriptionEvent::Error { error, .. } => {
